@@ -140,6 +140,36 @@ NA = {
 }
 
 
+# round-3 additions: (technique suffix, claim suffix)
+EXTRA = {
+    "C02": ("dominating-fact census of every chunk move across a line break; census of every integral conversion of a code point to an 8-bit type (AST facts incl. implicit conversions)",
+            "No chunk is moved over a line break into or out of a directive line; no code point read by the tokenizer or held in chunk text is cut to its low byte."),
+    "C03": ("path analysis of the per-line backslash counter of parse_comment; not-a-comment proof (type facts, comment-skipping navigation, caller arguments) for every Chunk::Delete site",
+            "Every Chunk::Delete site deletes a chunk that is provably not a comment (one recorded by-design finding: the comment trailing a removed duplicate #include)."),
+    "C04": ("first-on-line facts for every SwapLines; path search with an edge filter in the @property attribute sorter",
+            "The Objective-C property sorter puts every attribute word into a bucket before it deletes what it did not move."),
+    "C06": ("unsigned-wrap obligations (interval analysis) on every ordered subtraction of the code_width pass",
+            "In the code_width pass, whose change counter drives an otherwise unbounded retry loop, no ordered unsigned subtraction can wrap (a replayed hang is repaired)."),
+    "C08": ("class agreement of every census increment with the characters tested", "Each census increment counts the class of the break that was seen."),
+    "C09": ("must-call of the one encoder in write_utf8; census of every conversion of a code point to an 8-bit type",
+            "The output path uses the encoder whose tables are shown to agree with the decoder; no code point is narrowed to a byte-sized type."),
+    "C10": ("path analysis of file_content_matches (every block read is compared or the file is at its end)",
+            "The in-place comparison that decides whether the old file is kept cannot skip a block it has read."),
+    "C12": ("independence of the two sinks of write_byte; the global-state reset analysis of C11 restricted to the capture buffer",
+            "The buffer --check/--if-changed compare is filled whether or not a file sink exists and holds this file's bytes only."),
+    "C13": ("guard analysis of backup_copy_file (shared with C14)", "The backup is skipped only when the md5 of the bytes read equals the recorded one over all 32 digits."),
+    "C16": ("reachability of failure returns from stores in the option readers", "A reader that has stored a value cannot report failure afterwards."),
+    "C17": ("accessor agreement of level comparisons in the newline passes", "Scans in the newline passes compare like with like (level / brace level / preprocessor level)."),
+    "C19": ("constant folding of space_text's safety block over the punctuator table in the converse direction, helpers evaluated under the pair bindings",
+            "No pair of punctuators that stays two tokens when written without a blank can have a configured remove overridden."),
+    "C20": ("guard analysis of the merge in newlines_cleanup_dup; navigation check of the existing-newline tests; accessor agreement of level comparisons in the newline passes",
+            "Every adjacent pair of newline chunks is merged; the newline adders look past virtual braces for an existing newline."),
+}
+for _p, (_t, _c) in EXTRA.items():
+    tech, text, ref = CLAIMS[_p]
+    CLAIMS[_p] = (tech + "; " + _t, text + " " + _c, ref)
+
+
 def main():
     props = [json.loads(l)["id"] for l in open(os.path.join(VERIF, "properties.jsonl"))]
     checks = []
